@@ -44,14 +44,27 @@ def _run_shard(ctx, shard_id, pkgs, timeout, pkg_timeout=600):
     return events
 
 
-def run_packages(ctx, pkgs, procs=8, timeout=3600):
-    """pkgs: list of vh-exec input records. Returns {id: {"built": ev|None, "tests": [ev], "crashed": ev|None, "runfailed": ev|None}}"""
+def run_packages(ctx, pkgs, procs=8, timeout=3600, pkg_timeout=600, retry_timeouts=True):
+    """pkgs: list of vh-exec input records. Returns {id: {"built": ev|None, "tests": [ev], "crashed": ev|None, "runfailed": ev|None}}
+    A package whose build hit the per-package watchdog is built once more, alone, with four times the limit: the
+    watchdog measures wall time, and a loaded machine must not turn into a verdict about the compiler."""
     ctx.build_vh("vh-exec")
     procs = max(1, min(procs, len(pkgs)))
     shards = [pkgs[i::procs] for i in range(procs)]
     t = time.time()
     with ThreadPoolExecutor(max_workers=procs) as ex:
-        results = list(ex.map(lambda a: _run_shard(ctx, a[0], a[1], timeout), enumerate(shards)))
+        # the per-package watchdog, not the limit of the whole vh-exec process, is what ends a slow build
+        results = list(ex.map(lambda a: _run_shard(ctx, a[0], a[1], max(timeout, 600 + len(a[1]) * (pkg_timeout + 120)), pkg_timeout),
+                              enumerate(shards)))
+    if retry_timeouts:
+        slow = {e["id"] for evs in results for e in evs if e["ev"] == "Built" and e.get("timeout")}
+        if slow:
+            log("[exec] %d package(s) hit the %ds watchdog; building them again alone with %ds" % (len(slow), pkg_timeout, 4 * pkg_timeout))
+            results = [[e for e in evs if e["id"] not in slow] for evs in results]
+            again = [p for p in pkgs if p["id"] in slow]
+            ctx.retried_timeouts = getattr(ctx, "retried_timeouts", 0) + len(again)
+            for i, p in enumerate(again):
+                results.append(_run_shard(ctx, "retry%d" % i, [p], 5 * pkg_timeout + 600, 4 * pkg_timeout))
     res = {p["id"]: {"built": None, "tests": [], "crashed": None, "runfailed": None, "passes": None, "main": None} for p in pkgs}
     for evs in results:
         for e in evs:
